@@ -223,7 +223,8 @@ def rewrite_all_references(
         pattern = pattern_whole_reference(match)
 
         try:
-            value = pattern.sub(lambda m, rewrite=rewrite: rewrite, value, 1)
+            # VV: a string may use the same reference more than once (e.g. `x:output vs x:output`), rewrite them all
+            value = pattern.sub(lambda m, rewrite=rewrite: rewrite, value)
         except Exception:
             flowirLogger.critical("Failed to res.sub(\"%s\", \"%s\", \"%s\"" % (pattern.pattern, rewrite, value))
             raise
